@@ -158,6 +158,8 @@ func c9replaceRace(backend string) conc.Case {
 
 func (*c09) Corpus() []any {
 	var out []any
+	// the assumption of the model ("a single storage call is atomic") probed directly on the memory driver
+	out = append(out, conc.Case{Backend: "memory", Probe: "memory-lock-discipline", Note: "probe: lock discipline of driver.Memory"})
 	for _, b := range []string{"secret", "memory"} {
 		out = append(out, c9replaceRace(b))
 		base := c9base()
@@ -184,8 +186,8 @@ func (*c09) Corpus() []any {
 func (*c09) Exhaustive(tier string) []any {
 	var out []any
 	r := rand.New(rand.NewSource(909))
+	c09RaceRun(tier)
 	if tier == "thorough" {
-		c09RaceRun()
 		for _, b := range c9backends {
 			for _, s := range c9base() {
 				all := conc.Interleavings(c9counts(s.mk(b, nil)))
@@ -327,6 +329,9 @@ func c9kinds(c conc.Case) string {
 
 func (*c09) Class(ci, _ any) string {
 	c := ci.(conc.Case)
+	if c.Probe != "" {
+		return "probe/" + c.Probe
+	}
 	f := ""
 	if c9hasFault(c) {
 		f = "/fault"
@@ -359,6 +364,9 @@ func (*c09) Oracle(ci, oi any) []hx.Violation {
 	c, o := ci.(conc.Case), oi.(conc.Obs)
 	var vs []hx.Violation
 	add := func(sig, what string) { vs = append(vs, hx.Violation{Sig: sig, What: what}) }
+	for _, f := range o.Probe {
+		add("C09:memory-driver-lock-discipline", f)
+	}
 	if c09RaceFound != "" {
 		add("C09:data-race", c09RaceFound)
 		c09RaceFound = ""
